@@ -294,6 +294,25 @@ def run(tier, seed):
         sp + "/__editable__.outer_pkg-0.1.pth": "@BASE@/ext/outer_src\n",
     }
     emit_venv("vtwo", two, [("inner_fx", "plugin"), ("outer_fx", "third")])
+    # an explicit import of a name from a module that only RE-EXPORTS it (`from ..sharedmod import fbase`, where sharedmod
+    # star-imports basemod): the name is imported all the same (fixed graph, runs first)
+    fixed_imports = {
+        "basemod.py": FX.format("fbase"),
+        "sharedmod.py": "from .basemod import *\n",
+        "pkg/__init__.py": "",
+        "pkg/conftest.py": "import pytest\nfrom ..sharedmod import fbase\n",
+        "pkg/test_here.py": "def test_it(fbase):\n    pass\n",
+        "other/test_here.py": "def test_it(fbase):\n    pass\n",
+    }
+    cases.case("gfix", {"kind": "imports"})
+    for k, (p, t) in enumerate(sorted(fixed_imports.items())):
+        cases.text("f%d" % k, t); cases.raw("disk %s f%d" % (p, k))
+    cases.op("scan")
+    cases.q("dump")
+    for t in ("pkg/test_here.py", "other/test_here.py"):
+        cases.q("avail", t); cases.q("resolve", t, "fbase")
+    for p in ("pkg/conftest.py", "sharedmod.py"):
+        cases.q("imported", p)
     for i in range(n):
         rng = r.rng
         if i % 2 == 0:
